@@ -541,16 +541,37 @@ type SpecFile struct {
 	Axioms    []*Axiom
 	Lemmas    []*Lemma
 	Tables    []*TableDecl
+	GhostZero [][3]string
 }
 
 var clauseKeywords = map[string]bool{
 	"func": true, "pure": true, "opaque": true, "props": true, "requires": true, "ensures": true, "modifies": true,
 	"loop": true, "invariant": true, "decreases": true, "assert_at": true, "table": true, "axiom": true,
 	"lemma": true, "inline": true, "hint": true, "arith": true, "trusted": true, "cover": true, "note": true,
-	"maypanic": true, "noauto": true, "float": true, "params": true, "allowexit": true, "extern": true,
+	"maypanic": true, "noauto": true, "float": true, "ghostzero": true, "params": true, "allowexit": true, "extern": true,
 }
 
 // parseTags parses an optional "[C01,C02]" or "[name]" prefix
+// splitTop splits at commas that are not inside parentheses or brackets
+func splitTop(s string) []string {
+	var out []string
+	depth, start := 0, 0
+	for i, c := range s {
+		switch c {
+		case '(', '[':
+			depth++
+		case ')', ']':
+			depth--
+		case ',':
+			if depth == 0 {
+				out = append(out, s[start:i])
+				start = i + 1
+			}
+		}
+	}
+	return append(out, s[start:])
+}
+
 func parseTags(s string) (tags []string, rest string) {
 	s = strings.TrimSpace(s)
 	if strings.HasPrefix(s, "[") {
@@ -652,6 +673,15 @@ func ParseSpecFile(path, pkg, content string) (*SpecFile, error) {
 			sf.Lemmas = append(sf.Lemmas, lm)
 			curLemma = lm
 			cur, curLoop = nil, nil
+		case "ghostzero":
+			// ghostzero <type> <ghost field>: a freshly allocated zero value of that library type has ghost field 0
+			// optional third field: the initial value (default 0), e.g. a dynamic-type tag
+			f := strings.Fields(rest)
+			if len(f) == 2 {
+				sf.GhostZero = append(sf.GhostZero, [3]string{f[0], f[1], "0"})
+			} else if len(f) == 3 {
+				sf.GhostZero = append(sf.GhostZero, [3]string{f[0], f[1], f[2]})
+			}
 		case "table":
 			f := strings.Fields(rest)
 			sf.Tables = append(sf.Tables, &TableDecl{Global: f[0], Pkg: pkg, Props: f[1:]})
@@ -705,7 +735,7 @@ func ParseSpecFile(path, pkg, content string) (*SpecFile, error) {
 		case "modifies":
 			if curLoop != nil {
 				curLoop.ModifiesSet = true
-				for _, m := range strings.Split(rest, ",") {
+				for _, m := range splitTop(rest) {
 					m = strings.TrimSpace(m)
 					if m != "" && m != "nothing" {
 						curLoop.Modifies = append(curLoop.Modifies, m)
@@ -717,7 +747,7 @@ func ParseSpecFile(path, pkg, content string) (*SpecFile, error) {
 				return nil, fmt.Errorf("%s:%d: modifies outside func", path, l.line)
 			}
 			cur.ModifiesSet = true
-			for _, m := range strings.Split(rest, ",") {
+			for _, m := range splitTop(rest) {
 				m = strings.TrimSpace(m)
 				if m != "" && m != "nothing" {
 					cur.Modifies = append(cur.Modifies, m)
